@@ -157,10 +157,25 @@ pub fn catalogue(w: &World, tier: &str, seed: u64, reps: usize) -> Vec<FaultCase
                         for ll in pick(&idx, thorough) {
                             entries.push((What::Tree(tm(vec![ll, 0], MutOp::FlipBit)), "laand-e-bit".into()));
                         }
+                        // an even number of wrong e bits (would cancel in a check that folds all triples)
+                        if len >= 2 {
+                            for (a, b) in [(0usize, 1usize), (0, len - 1), (len / 2, len - 1)] {
+                                if a != b {
+                                    entries.push((What::TreeMulti(vec![tm(vec![a, 0], MutOp::FlipBit), tm(vec![b, 0], MutOp::FlipBit)]), "laand-two-e-bits".into()));
+                                }
+                            }
+                        }
                     }
                     "haand" => {
                         for ll in pick(&idx, thorough) {
                             entries.push((What::TreeMulti(vec![tm(vec![ll, 0], MutOp::FlipBit), tm(vec![ll, 1], MutOp::FlipBit)]), "haand-both-h".into()));
+                        }
+                        if len >= 2 {
+                            for (a, b) in [(0usize, len - 1), (len / 2, len - 1)] {
+                                if a != b {
+                                    entries.push((What::TreeMulti(vec![tm(vec![a, 0], MutOp::FlipBit), tm(vec![a, 1], MutOp::FlipBit), tm(vec![b, 0], MutOp::FlipBit), tm(vec![b, 1], MutOp::FlipBit)]), "haand-both-h-two-entries".into()));
+                                }
+                            }
                         }
                     }
                     "flaand comm" => {
